@@ -103,6 +103,11 @@ def layer_cases(tier):
         for pu in (False, True):
             for pc in (False, True):
                 cs.append({"kind": "layers", "user": {k: u} if pu else {}, "call": {k: c} if pc else {}})
+    # 1b. the call repeats the default value while the user layer holds another one (call must still win)
+    for k in PINNED_DEFAULTS:
+        u, c = alt_values(k, PINNED_DEFAULTS.get(k))
+        cs.append({"kind": "layers", "user": {k: u}, "call": {k: PINNED_DEFAULTS[k]}})
+        cs.append({"kind": "layers", "user": {k: PINNED_DEFAULTS[k]}, "call": {k: c}})
     # 2. iter x max_iter_* : full product of presence in both layers
     names = ["iter"] + ["max_iter_%s" % m for m in MODES]
     vals_u = {"iter": 3, "max_iter_hyd": 21, "max_iter_therm": 22, "max_iter_bidirect": 23}
